@@ -1,5 +1,6 @@
 (* Ctlog/Spec.v — what the sequencer properties say, as predicates over the model's world. *)
 From SL Require Export Ctlog.Model.
+From Coq Require Import Lia ZifyN ZifyNat.
 Open Scope N_scope.
 
 Section S.
@@ -9,9 +10,33 @@ Notation leaf_hashes := (leaf_hashes sha).
 
 Definition prefix {A} (a b : list A) : Prop := exists t, b = a ++ t.
 
+(* every leaf carries its own position as leaf index *)
+Definition idx_ok (ls : list sleaf) : Prop :=
+  forall j sl, nth_error ls j = Some sl -> l_idx (sl_leaf sl) = Z.of_nat j.
+
 (* a checkpoint value commits to a leaf sequence *)
 Definition wfcp (c : cp) (ls : list sleaf) : Prop :=
-  cp_size c = N.of_nat (length ls) /\ cp_root c = mroot (leaf_hashes ls).
+  cp_size c = N.of_nat (length ls) /\ cp_root c = mroot (leaf_hashes ls) /\ idx_ok ls.
+
+Lemma idx_ok_nil : idx_ok [].
+Proof. intros [|j] sl H; discriminate. Qed.
+
+Lemma new_sleaves_idx (p : pool) ts : forall first j sl,
+  nth_error (new_sleaves sha p first ts) j = Some sl -> l_idx (sl_leaf sl) = Z.of_N (first + N.of_nat j).
+Proof.
+  unfold new_sleaves. generalize (pl_leaves p). intro l.
+  induction l as [|x r IH]; intros first [|j] sl H; cbn in H; try discriminate.
+  - inversion H; subst. cbn. f_equal. lia.
+  - rewrite (IH _ _ _ H). f_equal. lia.
+Qed.
+
+Lemma idx_ok_app_new ls p ts :
+  idx_ok ls -> idx_ok (ls ++ new_sleaves sha p (N.of_nat (length ls)) ts).
+Proof.
+  intros H j sl Hn. destruct (Nat.lt_ge_cases j (length ls)) as [L|L].
+  - rewrite nth_error_app1 in Hn by exact L. auto.
+  - rewrite nth_error_app2 in Hn by exact L. rewrite (new_sleaves_idx _ _ _ _ _ Hn). lia.
+Qed.
 
 (* adjacent-pairs form of "append-only history" *)
 Fixpoint chain (h : list (cp * list sleaf)) : Prop :=
